@@ -636,7 +636,9 @@ impl Family for InterruptedReads {
 /// well-behaved client encodes them, each under every set of <= `max_cuts` cut positions behind the
 /// handshake. What the shim sees must not depend on where the reads end, whatever the commands
 /// are and whatever came before them.
-fn kind_walks(depth: usize, max_cuts: usize) -> Vec<Scen> {
+/// walk number `idx` of `depth` commands: (names, commands incl. a final query, expected callbacks
+/// incl. authentication); None if the history would end the connection (C10's subject)
+pub fn kind_walk(depth: usize, idx: u64) -> Option<(Vec<String>, Vec<ClientCmd>, Vec<Cb>)> {
     use super::model::{Registry, Routed};
     use super::registry::{encode, Action, Bind};
     #[derive(Clone)]
@@ -654,30 +656,42 @@ fn kind_walks(depth: usize, max_cuts: usize) -> Vec<Scen> {
         W::Raw("ping", vec![COM_PING]),
     ];
     let n = alpha.len() as u64;
-    let mut v = Vec::new();
-    'walk: for idx in 0..n.pow(depth as u32) {
-        let d = digits(idx, &vec![n; depth]);
-        let mut reg = Registry::default();
-        let mut cmds = Vec::new();
-        let mut exp = vec![auth_cb()];
-        let mut names = Vec::new();
-        for (step, i) in d.iter().enumerate() {
-            let (name, p) = match &alpha[*i as usize] {
-                W::A(a) => (a.short(), encode(&reg, a, step)),
-                W::Raw(nm, p) => (nm.to_string(), p.clone()),
-            };
-            match reg.route(&p) {
-                Routed::Cb(cb) => exp.push(cb),
-                Routed::NoCb => {}
-                _ => continue 'walk, // the history ends the connection: C10's subject
-            }
-            names.push(name);
-            cmds.push(ClientCmd::new(p));
+    if idx >= n.pow(depth as u32) {
+        return None;
+    }
+    let d = digits(idx, &vec![n; depth]);
+    let mut reg = Registry::default();
+    let mut cmds = Vec::new();
+    let mut exp = vec![auth_cb()];
+    let mut names = Vec::new();
+    for (step, i) in d.iter().enumerate() {
+        let (name, p) = match &alpha[*i as usize] {
+            W::A(a) => (a.short(), encode(&reg, a, step)),
+            W::Raw(nm, p) => (nm.to_string(), p.clone()),
+        };
+        match reg.route(&p) {
+            Routed::Cb(cb) => exp.push(cb),
+            Routed::NoCb => {}
+            _ => return None,
         }
-        // the last command must be one the shim sees, so that a mis-framed tail is visible
-        let (c, cb) = small_cmd(COM_QUERY, b"tail");
-        cmds.push(c);
-        exp.push(cb);
+        names.push(name);
+        cmds.push(ClientCmd::new(p));
+    }
+    // the last command must be one the shim sees, so that a mis-framed tail is visible
+    let (c, cb) = small_cmd(COM_QUERY, b"tail");
+    cmds.push(c);
+    exp.push(cb);
+    Some((names, cmds, exp))
+}
+pub const KIND_WALK_ALPHABET: u64 = 7;
+
+fn kind_walks(depth: usize, max_cuts: usize) -> Vec<Scen> {
+    let mut v = Vec::new();
+    for idx in 0..KIND_WALK_ALPHABET.pow(depth as u32) {
+        let (names, cmds, exp) = match kind_walk(depth, idx) {
+            Some(x) => x,
+            None => continue,
+        };
         let mut sc = Scen::new(format!("H + {:?} + query, every set of <= {} cuts", names, max_cuts), Conv::new(cmds), exp);
         sc.cands = (sc.ends[0] + 1..sc.stream.len()).collect();
         sc.upto = Some(max_cuts);
